@@ -141,6 +141,12 @@ fn lit(c: &CasSpec) -> u64 {
 /// One execution of `prog` under the schedule `forced` (choice indices at the decision points; beyond its
 /// end: choice 0, or random if `rng` is given).
 pub fn run_once(prog: &Program, forced: &[usize], rng: &mut Option<SmallRng>, max_steps: usize) -> RunResult {
+    run_sched(prog, forced, None, rng, max_steps)
+}
+
+/// As `run_once`; with `order` the next step is given to the named client (1-based) whenever that client
+/// can move - the replay of a schedule of the MemcConc model.
+pub fn run_sched(prog: &Program, forced: &[usize], order: Option<&[usize]>, rng: &mut Option<SmallRng>, max_steps: usize) -> RunResult {
     let sut = Arc::new(Mutex::new(Sut::new(&prog.policy, prog.mem_limit, 1 << 20)));
     // sequential set-up (no worker context: yield points are inert)
     let mut events: Vec<Value> = Vec::new();
@@ -259,7 +265,10 @@ pub fn run_once(prog: &Program, forced: &[usize], rng: &mut Option<SmallRng>, ma
             break;
         }
         let di = decisions.len();
-        let choice = if cands.len() == 1 {
+        let wanted = order.and_then(|o| o.get(steps)).and_then(|c| cands.iter().position(|w| w + 1 == *c));
+        let choice = if let Some(i) = wanted {
+            i
+        } else if cands.len() == 1 {
             0
         } else if di < forced.len() {
             std::cmp::min(forced[di], cands.len() - 1)
